@@ -153,7 +153,7 @@ def spec_of(kind, variant=0):
     if kind == "V":
         return ["value", [variant % 7, "p"]]
     if kind == "E":
-        return ["error", "E1"]
+        return ["error", "EF" if variant % 3 == 2 else "E1"]  # (now and then a falsy exception instance)
     if kind == "C":
         return ["cancel"]
     return None
